@@ -8,6 +8,7 @@ rsync -a --exclude target --exclude .git /repo/ $d/clean/
 cp -r $d/clean $d/patched
 (cd $d/clean && git apply "$sd/demo.diff") || { echo "demo.diff does not apply on clean"; }
 (cd $d/patched && git apply "$sd/patch.diff") || { echo "patch.diff does not apply"; rm -rf $d; exit 3; }
+[ -n "$PYLINK" ] && export RUSTFLAGS="-L /root/.pyenv/versions/3.11.7/lib -C link-arg=-lpython3.11" LD_LIBRARY_PATH=/root/.pyenv/versions/3.11.7/lib
 echo "== patch alone: pinned suite"; (cd $d/patched && CARGO_TARGET_DIR=$T/seed-target-b cargo test --workspace --no-fail-fast --offline 2>&1 | grep -E "^test result|^error" | head -3)
 (cd $d/patched && git apply "$sd/demo.diff") || echo "demo.diff does not apply on patched"
 echo "== clean + demo ($filt)"; (cd $d/clean && touch src/lib.rs && CARGO_TARGET_DIR=$T/seed-target-a cargo test --offline --lib "$filt" 2>&1 | grep -E "^test result|^error|panicked" | head -5)
